@@ -110,7 +110,7 @@ def sections(ctx, out):
             elif kind == "sp":
                 line = f"  {t} = S 2 {rng.randint(0, 500)}"
             else:
-                line = f"  {t} = E {rng.choice(['solo', 'a\tb', 'x=y', 'soloend'] + [w for w in gen.WORDS if ' ' not in w])}"
+                line = f"  {t} = E {rng.choice(['solo', 'a\tb', 'x=y', 'soloend'] + [w for w in gen.WORDS if ' ' not in w] + ['', ''])}"
             twin = rng.choice([line.replace(" N ", " N  ", 1), line.replace(" S 2 ", " S 2  ", 1), line.replace("\t", " "), line.replace(" = ", "  = ", 1),
                                line.replace(" = ", " =  ", 1), line.replace(" N ", " N 0", 1), line + " x", lc.mutate(rng, line)])
             pair = [line, twin] if rng.random() < 0.5 else [twin, line]
